@@ -313,9 +313,22 @@ def spell(sig, binding, form):
 # decorator construction
 
 def decorator_class(module, algo):
+    """algo: 'lru' ... or 'lru:None' / 'lru:0' = the bounded class asked for maxsize None / 0 (dispatches to inf_cache / no_cache
+    inside klepto: every other setting - keymap, ignore, tol, deep - must survive that dispatch)"""
     import klepto, klepto.safe
     mod = klepto.safe if module == 'safe' else klepto
+    if ':' in algo:
+        base, ms = algo.split(':')
+        cls = getattr(mod, base + '_cache')
+        msv = None if ms == 'None' else int(ms)
+
+        def factory(**kw):
+            return cls(maxsize=msv, **kw)
+        return factory
     return getattr(mod, algo + '_cache')
+
+
+DISPATCHED = ['lru:None', 'lfu:None', 'mru:None', 'rr:None']
 
 
 def build_decorator(cfg, cacheobj):
@@ -545,6 +558,11 @@ def expand_ops(ops):
         if op[0] == 'dumpreopen':
             out.append(['dump'])
             out.append(['reopen'])
+        elif op[0] == 'sweep':
+            # one call of every pool entry, starting at entry op[1] (a run of distinct arguments: fills and overflows the cache)
+            n = op[2]
+            for t in range(n):
+                out.append(['call', op[1] + t, 0, 0])
         elif op[0] == 'burst':
             i, n = op[1], op[2]
             j = op[3] if len(op) > 3 else i
